@@ -1,3 +1,3 @@
 #!/bin/sh
-# pin the statement files; run deliberately after reviewing a change to Properties/
-cd "$(dirname "$0")/../coq" && sha256sum Properties/*.v > ../statements.lock
+# pin the statement files AND the Spec files that give them their meaning; run deliberately after reviewing a change
+cd "$(dirname "$0")/../coq" && sha256sum Properties/*.v Spec/*.v > ../statements.lock
